@@ -224,6 +224,7 @@ def execute(case):
             ck.label("merges")
         ck.nontrivial = (splits and merges) or any(s == 1 for s in src_dims)
         _check(ck, T, res, ref, tN, tM, dt, 4 * eff * nx + 2 * round_allow, nx)
+        _rmax_clause(ck, T, case, res, lambda rm: T.reshape(x, list(target), rmax=rm, **kw()))
         return ck.verdict()
 
     if op in ("permute", "permute_ttm"):
@@ -273,6 +274,7 @@ def execute(case):
         allow = 4 * eff * nx + 2 * round_allow * (1 + nsplit)
         if op == "to_qtt":
             _check(ck, T, res, xd.reshape(tN), tN, None, dt, allow, nx)
+            _rmax_clause(ck, T, case, res, lambda rm: x.to_qtt(mode_size=ms, rmax=rm, **kw()))
             return ck.verdict()
         if not ck.require(isinstance(res, T.TT), "result_type", "to_qtt returned %s" % type(res).__name__):
             return ck.verdict()
@@ -291,8 +293,23 @@ def execute(case):
             return ck.verdict()
         ck.nontrivial = sum(1 for n in N if n > 2) >= 2
         _check(ck, T, res, xd.reshape(tN + tN), tN, list(tN), dt, 4 * eff * nx + 2 * round_allow, nx)
+        _rmax_clause(ck, T, case, res, lambda rm: x.to_qtt(mode_size=ms, rmax=rm, **kw()))
         return ck.verdict()
     raise core.HarnessError(op)
+
+
+def _rmax_clause(ck, T, case, res, call):
+    """`rmax` is documented as the maximum rank of the result of reshape / to_qtt: a fifth of the cases repeat the call with a
+    small cap and require the right shape and every rank <= rmax (nothing is promised about the value then)."""
+    if ck.failed is not None or case["seed"] % 5 != 0 or not isinstance(res, T.TT):
+        return
+    rm = 1 + (case["seed"] // 5) % 3
+    ck.label("rmax_option")
+    if max(int(r) for r in res.R) > rm:
+        ck.label("rmax_binding")
+    capped = lib(lambda: call(rm))
+    if ck.require(isinstance(capped, T.TT) and capped.is_ttm == res.is_ttm and list(capped.N) == list(res.N), "rmax_shape", "call with rmax returned another kind / shape"):
+        ck.require(all(int(r) <= rm for r in capped.R), "rmax_not_honoured", "ranks %s with rmax=%d" % (capped.R, rm))
 
 
 def _check(ck, T, res, ref, tN, tM, dt, allow, nx):
